@@ -671,7 +671,7 @@ func (w *worker) startWatchdog() {
 			if wall < 500*time.Millisecond {
 				continue
 			}
-			if time.Now().After(w.r.Deadline) && !w.inScan.Load() {
+			if time.Now().After(w.softDL.Add(2*time.Second)) && !w.inScan.Load() {
 				// do not let one case carry the shard past the tier's budget
 				w.selfRestart("the tier deadline passed during the case", start)
 				continue
@@ -785,8 +785,17 @@ func newWorker(r *core.Run) *worker {
 	w.heapMax = core.Pick(r, uint64(1<<30), uint64(3<<30))
 	w.wdSkipAfter = core.Pick(r, int64(3), int64(12))
 	// stop early enough that the shards' results are merged inside the tier's budget
-	total := r.Deadline.Sub(r.Start)
-	w.softDL = r.Deadline.Add(-total / 12)
+	// (the margin is a fraction of the tier's whole budget, not of what is left for
+	// this process image: images started late must stop at the same time)
+	total := 150 * time.Second
+	env := "VERIF_QUICK_DEADLINE"
+	if r.Thorough() {
+		total, env = 25*time.Minute, "VERIF_THOROUGH_DEADLINE"
+	}
+	if d, err := time.ParseDuration(os.Getenv(env)); err == nil && d > 0 {
+		total = d
+	}
+	w.softDL = r.Deadline.Add(-total / 8)
 	if out := os.Getenv("VERIF_SHARD_OUT"); out != "" && r.IsChild {
 		w.carry = filepath.Join(filepath.Dir(out), fmt.Sprintf("c06-carry-%d.json", r.ShardIdx))
 		if t, err := loadTally(w.carry); err == nil {
